@@ -19,6 +19,10 @@ set in its iteration order.  A case is
     loss     close | partial (inside a reply) | inactive_first (ssh) | cb_raise (no loss by the peer: an application callback
              raises on a notification, the session thread takes that for a failure of the session)
 
+    hook / profile / nonfatal   the EARLIER history of the session: a custom handler class whose handle_raw_dispatch() hands an exception
+             back (hook = its class) or the junos profile; the peer first sends payloads that are not XML (HOSTILE of lts.py): a NON-fatal
+             error broadcast, the session goes on; before the application listeners register or with them registered (nonfatal_at)
+
 Oracle (property sentences on observables, the same for every composition): every outstanding request - synchronous: the call
 raises; asynchronous: event set, error stored, no reply - fails with a TransportError (cb_raise: with any error but a timeout)
 within PROMPT + the time the slow errbacks take, never waits out its timeout; the session thread ends, `connected` is False, a
@@ -120,7 +124,12 @@ def run_apps(case):
     when, pattern = case.get('when', 'after'), case.get('pattern')
     tag = '%s with %d application listener(s) [%s]' % (kind, len(specs), ', '.join('%s/%s' % (s.get('err', 'ok'), s.get('cb', 'ok')) for s in specs))
     caps = L.hello_caps(case)
-    st = L.Stand(kind, 'default', caps, case.get('base11'), answer=answered, chatter=bool(case.get('chatter')))
+    nf, nf_at = case.get('nonfatal') or [], case.get('nonfatal_at', 'before_apps')
+    if case.get('hook') or case.get('profile'):
+        tag += ' [%s%s]' % (case.get('profile', 'default'), ', custom handler: handle_raw_dispatch returns %s' % case['hook'] if case.get('hook') else '')
+    if nf: tag += ' after %d message(s) that could not be parsed (%s)' % (len(nf), nf_at)
+    st = L.Stand(kind, case.get('profile', 'default'), caps, case.get('base11'), answer=answered, chatter=bool(case.get('chatter')), hook=case.get('hook'))
+    no_notif = any(s.get('cb') == 'raise_on_notif' for s in specs)
     log, extra = [], []
     tie = case['_tie'] = dict(snapshot=None, visited=None, left=None)
     try:
@@ -135,6 +144,11 @@ def run_apps(case):
             r = L.timed(lambda: m.get())
             if r is None or r[0] != 'value':
                 return 'rig: %s: the warm-up request was not answered: %r' % (tag, r and r[1])
+        if nf and (nf_at == 'before_apps' or when == 'before'):
+            # earlier in the life of the session: payloads that are not XML (dropped / broadcast as a non-fatal error); with
+            # when = 'before' the application listeners' errbacks see that broadcast as well
+            f = st.nonfatal(m, nf, sync=not (no_notif and when == 'before'))
+            if f: return '%s %s: %s' % (f[:4], tag, f[5:])
         if when != 'before':
             if answered == 0:
                 RPCReplyListener(ses, st.dh)          # what the first RPC.__init__ does
@@ -142,6 +156,10 @@ def run_apps(case):
             if got is None:
                 return 'rig: %s: could not arrange the listener set in the order %r' % (tag, pattern)
             objs, case['_attempts'] = got
+            if nf and nf_at == 'with_apps':
+                f = st.nonfatal(m, nf, sync=not no_notif)
+                if f: return '%s %s: %s' % (f[:4], tag, f[5:])
+        n_log = len(log)
         res = {}
         def sync_call(slot):
             try: res[slot] = ('value', m.get_config(source='running'))
@@ -205,7 +223,7 @@ def run_apps(case):
             return '%s: the session thread is still running after the connection was lost' % tag
         if ses.connected or m.connected:
             return '%s: the session still reports connected after the connection was lost' % tag
-        tie['visited'] = [10 + e[1] for e in log if e[0] == 'errback']
+        tie['visited'] = [10 + e[1] for e in log[n_log:] if e[0] == 'errback']
         left = []
         for x in list(ses._listeners):
             if isinstance(x, RPCReplyListener): left.append(1)
@@ -266,6 +284,9 @@ def core_cases():
             _c('tls', [{'err': 'wreck'}, {'err': 'raise:SystemExit'}, {'err': 'add'}], [1, 0, 'R', 2], n_async=2),
             _c('unix', [{'err': 'slow'}, {'err': 'raise:SessionCloseError'}], ['R', 0, 1], chatter=False),
             _c('ssh', [], ['R'], n_sync=1, n_async=0),
+            # a NON-fatal error broadcast earlier (custom handler / junos hook hands an exception back for a payload that is not XML), then the loss
+            _c('tls', [{'err': 'raise:RuntimeError'}, {'err': 'ok'}], [0, 'R', 1], hook='OperationError', nonfatal=[1, 2], nonfatal_at='with_apps'),
+            _c('unix', [{'err': 'leave'}], ['R', 0], profile='junos', nonfatal=[3], n_sync=2, base11=True),
             _c('tls', [{'err': 'reenter'}, {'err': 'raise:TimeoutExpiredError', 'cb': 'raise_on_notif'}], [0, 1, 'R'], loss='cb_raise', chatter=False)]
 
 def gen_case(rng, kind=None):
@@ -284,6 +305,15 @@ def gen_case(rng, kind=None):
         rng.choice(apps)['cb'] = 'raise_on_notif'; c['chatter'] = False
         c['pattern'] = list(range(len(apps))) + ['R']; rng.shuffle(c['pattern'])
     if c['when'] == 'before': c['pattern'] = None
+    if rng.random() < 0.4:
+        from .lts import HOSTILE
+        if rng.random() < 0.7: c['hook'] = rng.choice(L.HOOKS)
+        else: c['profile'] = 'junos'
+        c['nonfatal'] = [rng.randrange(len(HOSTILE)) for _ in range(rng.choice([1, 1, 2]))]
+        quiet = all(a['err'] in ('ok', 'slow') or a['err'].startswith('raise:') for a in apps)      # errbacks that leave the listener set alone
+        c['nonfatal_at'] = rng.choice(['before_apps', 'with_apps']) if quiet else 'before_apps'
+        if c['when'] == 'before' and not quiet: c['when'] = 'after'; c['pattern'] = pattern
+        if c.get('profile') == 'junos': c['nonfatal'] = [v if v != 2 else 3 for v in c['nonfatal']]     # 2 ends a junos session (C14)
     return c
 
 def all_cases():
@@ -299,6 +329,12 @@ def all_cases():
             out.append(_c(kind, [{'err': 'raise:OSError'}, {'err': 'wreck'}, {'err': 'add'}], pattern, answered=0, chatter=False))
         out.append(_c(kind, [{'err': 'ok', 'cb': 'raise_on_notif'}, {'err': 'raise:RuntimeError'}], [1, 'R', 0], loss='cb_raise', chatter=False))
         out.append(_c(kind, [{'err': 'raise:RuntimeError'}] * 3, None, when='before'))
+        from .lts import HOSTILE
+        for v in (v for v in range(len(HOSTILE)) if v != 2):      # 2: the junos hook repairs it into text that is still not XML: the session ends on it (C14)
+            out.append(_c(kind, [{'err': 'raise:KeyError'}, {'err': 'slow'}], [0, 'R', 1], profile='junos', nonfatal=[v], nonfatal_at=('before_apps', 'with_apps')[v % 2]))
+        for i, hook in enumerate(L.HOOKS):
+            out.append(_c(kind, [{'err': ('wreck', 'add', 'leave_raise')[i % 3]}], [0, 'R'], hook=hook, nonfatal=[i, i + 2], answered=i % 2))
+            out.append(_c(kind, [{'err': 'raise:SystemExit'}] * 2, None, when='before', hook=hook, nonfatal=[i + 1]))
     return out
 
 def judge(case, tries=2):
